@@ -25,7 +25,7 @@ inductive Handle
 
 /-- kinds the abstract model tracks (the rest is dropped from traces before comparison) -/
 def Kind.modelled : Kind → Bool
-  | .readSchema | .insertMoves | .upsertAccounts | .updateTxMetadata | .insertMetadata | .read | .other => false
+  | .readSchema | .insertMoves | .updateTxMetadata | .insertMetadata | .read | .other => false
   | _ => true
 
 end Ledger.Sched
